@@ -33,7 +33,8 @@ CHECKS = {
         category=OTHER,
         text="Static rule conformance on IterativeAggregation._iteragg: both Index.get_indexer results must pass a test for the -1 sentinel that raises ValueError on "
              "every CFG path before use (must-pass-through); the window index arithmetic (begin_ix = pos+1, end_ix = pos, descending range to 1, stop at ii <= end_ix, "
-             "window [ii-n, ii) iff ii-n >= 0), the agg_* stamping and the reducer table are compared as integer normal forms.",
+             "window [ii-n, ii) iff ii-n >= 0), the agg_* stamping and the reducer table are compared as integer normal forms; the reduction is applied to every yielded window "
+             "under the single condition func is not None (no bypass path).",
         note="Trusted: pandas contract that Index.get_indexer returns -1 for a missing label and does not raise; xarray reduce/expand_dims/assign_attrs semantics.",
         technique="static analysis: statement CFG must-pass-through + integer-comparison normal forms on the syntax tree",
     ),
@@ -75,8 +76,9 @@ CHECKS = {
     ),
     "C08": dict(
         category=OTHER,
-        text="R-NARROW: the two float64->int16 array stores (located by Numba's typed IR) must be preceded on every path by a restriction of the scaled value to "
-             "the int16 range; no raise/assert and no unguarded scalar division in the nopython call graph of the two drivers; the unfittable-pixel arms "
+        text="R-NARROW: the float64->int16 array stores and any scalar narrowing store into the int16 output (located by Numba's typed IR) must be preceded on every "
+             "path by a restriction of the scaled value to the int16 range, and no float->integer conversion (round/int typed float->int64) may be applied to an "
+             "unclamped value; no raise/assert and no unguarded scalar division in the nopython call graph of the two drivers; the unfittable-pixel arms "
              "(no valid cell, >90% zeros, no fit) return all-nodata; p0/alpha/beta are loop-invariant in the per-cell expression (structural half of monotonicity).",
         note="Trusted: Numba type inference; composition of non-decreasing maps. Monotonicity of SciPy's special functions at the float64 resolution limit and the "
              "float differences inside the Brent port are declined (listed in the evidence).",
